@@ -241,6 +241,45 @@ type polyCtx struct {
 	pub    *share.PubPoly
 	sh     []*share.PriShare
 	psh    []*share.PubShare
+	idx    []uint32 // the share indices (position -> index); 0..n-1 for Shares(n)
+	shm    map[uint32]*share.PriShare
+	pshm   map[uint32]*share.PubShare
+}
+
+func (c *polyCtx) indexShares() {
+	c.idx = nil
+	c.shm = map[uint32]*share.PriShare{}
+	c.pshm = map[uint32]*share.PubShare{}
+	for k, s := range c.sh {
+		c.idx = append(c.idx, s.I)
+		c.shm[s.I] = s
+		c.pshm[s.I] = c.psh[k]
+	}
+}
+
+// shares at arbitrary (sparse, large) uint32 indices, made with Eval
+func newSparseCtx(G *grp, r *vh.Rng, t int, idx []uint32, style int) *polyCtx {
+	c := newPolyCtx(G, r, t, 0, style)
+	c.n = len(idx)
+	c.sh, c.psh = nil, nil
+	for _, i := range idx {
+		c.sh = append(c.sh, c.pri.Eval(i))
+		c.psh = append(c.psh, c.pub.Eval(i))
+	}
+	c.indexShares()
+	return c
+}
+
+// arrange works on positions 0..n-1; map them to the context's share indices
+func (c *polyCtx) reindex(es []ent) []ent {
+	out := make([]ent, len(es))
+	for k, e := range es {
+		out[k] = e
+		if e.Kind != 0 && int(e.I) < len(c.idx) {
+			out[k].I = c.idx[e.I]
+		}
+	}
+	return out
 }
 
 func newPolyCtx(G *grp, r *vh.Rng, t, n, style int) *polyCtx {
@@ -273,6 +312,7 @@ func newPolyCtx(G *grp, r *vh.Rng, t, n, style int) *polyCtx {
 	c.pub = c.pri.Commit(c.base)
 	c.sh = c.pri.Shares(uint32(n))
 	c.psh = c.pub.Shares(uint32(n))
+	c.indexShares()
 	return c
 }
 
@@ -283,11 +323,11 @@ func (c *polyCtx) build(es []ent) ([]*share.PriShare, []*share.PubShare) {
 		switch e.Kind {
 		case 1:
 			if k%2 == 0 { // the dealer's object itself, or a copy
-				ps[k] = c.sh[e.I]
-				qs[k] = c.psh[e.I]
+				ps[k] = c.shm[e.I]
+				qs[k] = c.pshm[e.I]
 			} else {
-				ps[k] = &share.PriShare{I: e.I, V: c.sh[e.I].V.Clone()}
-				qs[k] = &share.PubShare{I: e.I, V: c.psh[e.I].V.Clone()}
+				ps[k] = &share.PriShare{I: e.I, V: c.shm[e.I].V.Clone()}
+				qs[k] = &share.PubShare{I: e.I, V: c.pshm[e.I].V.Clone()}
 			}
 		case 2:
 			ps[k] = &share.PriShare{I: e.I, V: nil}
@@ -338,7 +378,7 @@ func (c *polyCtx) recover(es []ent) recObs {
 func (c *polyCtx) replay(es []ent, extra map[string]interface{}) map[string]interface{} {
 	m := map[string]interface{}{
 		"group": c.G.name, "t": c.t, "n": c.n, "coefficients": sstrs(c.coeffs), "base": pstr(c.base),
-		"share_slice": es,
+		"share_slice": es, "share_indices": c.idx,
 	}
 	for k, v := range extra {
 		m[k] = v
@@ -432,16 +472,13 @@ func (c *polyCtx) oracleEval(rep *vh.Report, r *vh.Rng) {
 		fail("share.Shares/length", "Shares(n) does not return n shares", nil)
 		return
 	}
-	idx := []uint32{}
-	for i := 0; i < c.n; i++ {
-		idx = append(idx, uint32(i))
-	}
-	idx = append(idx, uint32(c.n+r.Intn(50)), uint32(r.U64()), 0xffffffff, 0x7fffffff)
+	idx := append([]uint32{}, c.idx...)
+	idx = append(idx, uint32(c.n+r.Intn(50)), uint32(r.U64()), 0xffffffff, 0x7fffffff, 0x80000000)
 	for k, i := range idx {
 		var s *share.PriShare
 		var p *share.PubShare
 		if k < c.n {
-			s, p = c.sh[i], c.psh[i]
+			s, p = c.sh[k], c.psh[k]
 		} else {
 			s, p = c.pri.Eval(i), c.pub.Eval(i)
 		}
@@ -648,6 +685,36 @@ func (c *polyCtx) coqPoly(id int, r *vh.Rng) string {
 		vh.CoqList(sh), zPs(infoCommits(c.pub)), vh.CoqList(psh), vh.CoqList(evals), vh.CoqList(checks))
 }
 
+func (c *polyCtx) coqRecS(id int, es []ent, o recObs) string {
+	sh, psh := c.coqSlices(es)
+	sec, com := "None", "None"
+	if !o.secErr {
+		sec = "(Some " + zS(o.sec) + ")"
+	}
+	if !o.comErr {
+		com = "(Some " + zP(o.com) + ")"
+	}
+	return fmt.Sprintf("CRecS %d %s %d %s %s %s %s", id, vh.CoqZ(c.G.dlog.Q), c.t, sh, psh, sec, com)
+}
+
+func (c *polyCtx) coqSlices(es []ent) (string, string) {
+	var sh, psh []string
+	for _, e := range es {
+		switch e.Kind {
+		case 0:
+			sh = append(sh, "None")
+			psh = append(psh, "None")
+		case 1:
+			sh = append(sh, fmt.Sprintf("Some (%s, Some %s)", zU(e.I), zS(c.shm[e.I].V)))
+			psh = append(psh, fmt.Sprintf("Some (%s, Some %s)", zU(e.I), zP(c.pshm[e.I].V)))
+		case 2:
+			sh = append(sh, fmt.Sprintf("Some (%s, None)", zU(e.I)))
+			psh = append(psh, fmt.Sprintf("Some (%s, None)", zU(e.I)))
+		}
+	}
+	return vh.CoqList(sh), vh.CoqList(psh)
+}
+
 func (c *polyCtx) coqRec(id int, es []ent, o recObs) string {
 	var sh, psh []string
 	for _, e := range es {
@@ -656,8 +723,8 @@ func (c *polyCtx) coqRec(id int, es []ent, o recObs) string {
 			sh = append(sh, "None")
 			psh = append(psh, "None")
 		case 1:
-			sh = append(sh, fmt.Sprintf("Some (%s, Some %s)", zU(e.I), zS(c.sh[e.I].V)))
-			psh = append(psh, fmt.Sprintf("Some (%s, Some %s)", zU(e.I), zP(c.psh[e.I].V)))
+			sh = append(sh, fmt.Sprintf("Some (%s, Some %s)", zU(e.I), zS(c.shm[e.I].V)))
+			psh = append(psh, fmt.Sprintf("Some (%s, Some %s)", zU(e.I), zP(c.pshm[e.I].V)))
 		case 2:
 			sh = append(sh, fmt.Sprintf("Some (%s, None)", zU(e.I)))
 			psh = append(psh, fmt.Sprintf("Some (%s, None)", zU(e.I)))
@@ -753,13 +820,33 @@ func randomSubset(r *vh.Rng, n, size int) []int {
 	return s
 }
 
+// ---------------------------------------------------------------- size boundaries
+
+// thresholds at and near the upper end of the property's quantifier (n <= 24):
+// products of t-1 x-coordinates / of their differences pass 2^31, 2^32, 2^63
+// and 2^64 here (13! > 2^32, 21! > 2^63), which smaller sharings never reach
+var bigTN = [][2]int{{21, 24}, {24, 24}, {16, 24}, {18, 24}, {20, 24}, {22, 24}, {23, 24}, {13, 16}, {17, 17}, {22, 22}, {13, 13}}
+
+// share indices around the int32 / uint32 boundaries (legal: x = i+1 < 2^32)
+var sparseIdx = []uint32{0, 1, 2, 0x7ffffffe, 0x7fffffff, 0x80000000, 0xfffffffd, 0xfffffffe}
+
+// lowest t indices, highest t indices, random exact-t, random surplus, t-1 (refusal)
+func boundarySubsets(r *vh.Rng, t, n int) [][]int {
+	var low, high []int
+	for i := 0; i < t; i++ {
+		low = append(low, i)
+		high = append(high, n-t+i)
+	}
+	return [][]int{low, high, randomSubset(r, n, t), randomSubset(r, n, t+r.Intn(n-t+1)), randomSubset(r, n, t-1)}
+}
+
 // ---------------------------------------------------------------- main
 
 func main() {
 	o := vh.ParseFlags()
 	rng := vh.NewRng(o.Seed)
 	rep := vh.NewReport("C07", o.Seed, o.Tier)
-	rep.Rule = "dlog group (order 2^61-1), model correspondence: every (t,n) with 1<=t<=n<=8 (thorough 12), secrets 0/1/-1/random, bases nil/multiple/picked; for n<=6 (thorough 7) every subset of size >= t-1 as a natural slice (nil where missing) and as shuffled slices with duplicates, nil holes and V=nil shares, random subsets above; Shares/Commit/Eval/Check (honest, off-by-one, random, moved index); Add/Mul/Equal on thresholds 0..6. Oracles on Ed25519, P-256, BN256 G1, BLS12-381 G1 (kilic), QR-512 and the dlog group: (t,n) up to 12 (thorough 24) with exhaustive subsets for small n and random subsets otherwise. distinct = distinct canonical case text; non-trivial = recovery with t >= 2 from a slice that is not the natural full one, polynomial cases with t >= 2, arithmetic cases with both thresholds >= 2"
+	rep.Rule = "dlog group (order 2^61-1), model correspondence: every (t,n) with 1<=t<=n<=8 (thorough 12), secrets 0/1/-1/random, bases nil/multiple/picked; for n<=6 (thorough 7) every subset of size >= t-1 as a natural slice (nil where missing) and as shuffled slices with duplicates, nil holes and V=nil shares, random subsets above; Shares/Commit/Eval/Check (honest, off-by-one, random, moved index); Add/Mul/Equal on thresholds 0..6. Size boundaries in every run: thresholds 13..24 with n up to 24 (lowest / highest / random / surplus / t-1 subsets; RecoverSecret+RecoverCommit exact for all, full interpolation exact for three), Shares/Commit/Check and Add/Mul at thresholds up to 24, sharings at indices around 2^31 and 2^32; the same as oracles on every group. Oracles on Ed25519, P-256, BN256 G1, BLS12-381 G1 (kilic), QR-512 and the dlog group: (t,n) up to 12 (thorough 24) with exhaustive subsets for small n and random subsets otherwise. distinct = distinct canonical case text; non-trivial = recovery with t >= 2 from a slice that is not the natural full one, polynomial cases with t >= 2, arithmetic cases with both thresholds >= 2"
 	cf := &vh.CaseFile{Header: "From Kyber Require Import Share.ShamirSM Share.ShamirRun.", Type: "case", Runner: "mismatches"}
 	G := groups(o.Seed, o.Search)
 	dl := G[0]
@@ -840,6 +927,127 @@ func main() {
 		}
 	}
 
+	// ---------------- size boundaries over the dlog group (exact correspondence)
+	cfBig := &vh.CaseFile{Header: cf.Header, Type: "case", Runner: "mismatches"}
+	cfFull := &vh.CaseFile{Header: cf.Header, Type: "case", Runner: "mismatches"}
+	if !o.Search {
+		for bi, tn := range bigTN {
+			t, n := tn[0], tn[1]
+			r := rng.Fork()
+			c := newPolyCtx(dl, r, t, n, r.Intn(30))
+			subs := boundarySubsets(r, t, n)
+			if bi >= 3 && !o.Thorough {
+				subs = [][]int{subs[0], subs[1], subs[4]}
+			}
+			for si, sub := range subs {
+				es := arrange(r, sub, n, si%2 == 0)
+				ob := c.recover(es)
+				c.oracleRecover(rep, es, len(sub), ob)
+				// the full interpolation is recomputed by the model for three of them
+				var term string
+				if (bi == 0 && si == 0) || (bi == 1 && si == 2) || (bi == 2 && si == 1) {
+					term = c.coqRec(id, es, ob)
+					cfFull.Items = append(cfFull.Items, term)
+					rep.Dist("recover-large-t-full")
+				} else {
+					term = c.coqRecS(id, es, ob)
+					cfBig.Items = append(cfBig.Items, term)
+					rep.Dist("recover-large-t")
+				}
+				rep.Count(term, true)
+				rep.Index(id, c.replay(es, map[string]interface{}{"what": "Recover* at a large threshold", "subset": sub}))
+				id++
+			}
+		}
+		for _, tn := range [][2]int{{24, 24}, {13, 24}, {21, 22}} {
+			r := rng.Fork()
+			c := newPolyCtx(dl, r, tn[0], tn[1], r.Intn(30))
+			c.oracleEval(rep, r)
+			term := c.coqPoly(id, r)
+			cfBig.Items = append(cfBig.Items, term)
+			rep.Count(term, true)
+			rep.Dist("poly-large-t")
+			rep.Index(id, c.replay(nil, map[string]interface{}{"what": "Shares/Commit/Eval/Check at a large threshold"}))
+			id++
+		}
+		for _, tt := range [][2]int{{24, 24}, {12, 24}, {24, 1}, {13, 13}} {
+			r := rng.Fork()
+			term, txt := coqArith(dl, r, id, tt[0], tt[1])
+			cfBig.Items = append(cfBig.Items, term)
+			rep.Count(txt, true)
+			rep.Dist("arith-large-t")
+			rep.Index(id, map[string]interface{}{"what": "Add/Mul/Equal at large thresholds", "case": txt})
+			id++
+		}
+		// shares at sparse indices around 2^31 and 2^32
+		for _, t := range []int{2, 3, 4, 6, 8} {
+			r := rng.Fork()
+			c := newSparseCtx(dl, r, t, sparseIdx, r.Intn(30))
+			c.oracleEval(rep, r)
+			n := len(sparseIdx)
+			subs := [][]int{randomSubset(r, n, t), randomSubset(r, n, t-1), randomSubset(r, n, n)}
+			for k := 0; k < 3; k++ {
+				subs = append(subs, randomSubset(r, n, t+r.Intn(n-t+1)))
+			}
+			for k, sub := range subs {
+				es := c.reindex(arrange(r, sub, n, k%3 == 0))
+				ob := c.recover(es)
+				c.oracleRecover(rep, es, len(sub), ob)
+				term := c.coqRec(id, es, ob)
+				cfBig.Items = append(cfBig.Items, term)
+				rep.Count(term, true)
+				rep.Dist("recover-large-index")
+				rep.Index(id, c.replay(es, map[string]interface{}{"what": "Recover* on shares at indices around 2^31 / 2^32", "subset": sub}))
+				id++
+			}
+		}
+	}
+
+	// ---------------- size boundaries over all groups (oracles)
+	for gi, g := range G {
+		list := bigTN
+		if gi >= 2 && !o.Thorough && !o.Search {
+			list = bigTN[:3]
+		}
+		for bi, tn := range list {
+			t, n := tn[0], tn[1]
+			r := rng.Fork()
+			c := newPolyCtx(g, r, t, n, r.Intn(30))
+			if bi == 1 || o.Thorough {
+				c.oracleEval(rep, r)
+			}
+			subs := boundarySubsets(r, t, n)
+			if gi >= 2 && !o.Thorough && !o.Search {
+				subs = [][]int{subs[0], subs[1], subs[4]}
+			}
+			for si, sub := range subs {
+				es := arrange(r, sub, n, si%2 == 0)
+				ob := c.recover(es)
+				c.oracleRecover(rep, es, len(sub), ob)
+				rep.Dist("oracle-recover-large-t:" + g.name)
+				if o.Search {
+					rep.Count(fmt.Sprint(g.name, t, n, es), true)
+				}
+			}
+		}
+		for _, t := range []int{2, 3, 5, 8} {
+			r := rng.Fork()
+			c := newSparseCtx(g, r, t, sparseIdx, r.Intn(30))
+			c.oracleEval(rep, r)
+			n := len(sparseIdx)
+			for k, sub := range [][]int{randomSubset(r, n, t), randomSubset(r, n, t-1), randomSubset(r, n, t+r.Intn(n-t+1))} {
+				es := c.reindex(arrange(r, sub, n, k == 2))
+				ob := c.recover(es)
+				c.oracleRecover(rep, es, len(sub), ob)
+				rep.Dist("oracle-recover-large-index:" + g.name)
+			}
+		}
+		for _, tt := range [][2]int{{24, 24}, {13, 20}} {
+			oracleArith(g, rng.Fork(), rep, tt[0], tt[1])
+			rep.Dist("oracle-arith-large-t:" + g.name)
+		}
+	}
+
 	// ---------------- oracles over all groups
 	oN, oExh, oRand, oArith := 12, 5, 6, 12
 	if o.Thorough {
@@ -899,6 +1107,8 @@ func main() {
 
 	if !o.Search {
 		vh.WriteShards(o.Out, "c07", cf, 50, rep)
+		vh.WriteShards(o.Out, "c07big", cfBig, 4, rep)
+		vh.WriteShards(o.Out, "c07full", cfFull, 1, rep)
 	}
 	rep.Write(o.Out)
 }
